@@ -33,6 +33,7 @@ type task struct {
 
 	cond      *sync.Cond
 	running   bool
+	deleted   bool // Set by garbage collection once the task left the limiter.
 	output    interface{}
 	expiresAt time.Time
 }
@@ -74,34 +75,47 @@ func NewLimiter(clk clock.Clock, runner TaskRunner) *Limiter {
 func (l *Limiter) Run(input interface{}) interface{} {
 	l.gc.Trap()
 
-	l.RLock()
-	t, ok := l.tasks[input]
-	l.RUnlock()
-	if !ok {
-		// Slow path, must initialize task struct under global write lock.
-		l.Lock()
-		t, ok = l.tasks[input]
+	for {
+		l.RLock()
+		t, ok := l.tasks[input]
+		l.RUnlock()
 		if !ok {
-			t = newTask(input)
-			l.tasks[input] = t
+			// Slow path, must initialize task struct under global write lock.
+			l.Lock()
+			t, ok = l.tasks[input]
+			if !ok {
+				t = newTask(input)
+				l.tasks[input] = t
+			}
+			l.Unlock()
 		}
-		l.Unlock()
+		if output, ok := l.getOutput(t); ok {
+			return output
+		}
+		// The task was garbage collected between the lookup and its use: a
+		// newer task may already exist for this input, so look it up again
+		// instead of running against the orphaned one.
 	}
-	return l.getOutput(t)
 }
 
-func (l *Limiter) getOutput(t *task) interface{} {
+// getOutput returns false if t was garbage collected and must not be used.
+func (l *Limiter) getOutput(t *task) (interface{}, bool) {
 	t.cond.L.Lock()
+
+	if t.deleted {
+		t.cond.L.Unlock()
+		return nil, false
+	}
 
 	if !t.expired(l.clk.Now()) {
 		defer t.cond.L.Unlock()
-		return t.output
+		return t.output, true
 	}
 
 	if t.running {
 		t.cond.Wait()
 		defer t.cond.L.Unlock()
-		return t.output
+		return t.output, true
 	}
 
 	t.running = true
@@ -117,7 +131,7 @@ func (l *Limiter) getOutput(t *task) interface{} {
 
 	t.cond.Broadcast()
 
-	return output
+	return output, true
 }
 
 type limiterTaskGC struct {
@@ -131,6 +145,9 @@ func (gc *limiterTaskGC) Run() {
 	for input, t := range gc.limiter.tasks {
 		t.cond.L.Lock()
 		expired := t.expired(gc.limiter.clk.Now()) && !t.running
+		if expired {
+			t.deleted = true
+		}
 		t.cond.L.Unlock()
 		if expired {
 			delete(gc.limiter.tasks, input)
